@@ -25,10 +25,11 @@ extern "C" int LLVMFuzzerTestOneInput(const uint8_t *data, size_t size) {
     const uint8_t *h = data;
     unsigned opts = h[0] & 7;
     int src = h[1] % 4 == 3 ? 1 : h[1] % 4 == 2 ? 2 : 0;
+    const int src_arg = src | ((h[1] & 0x30) == 0x30 ? 8 : 0);        // 1 in 4: the deprecated *_with_seg_cache constructor of the same kind
     Exact fbuf(data + HDR, size - HDR);
     FaceBox fb;
     hooks().reset();
-    make_face(fb, fbuf.p, fbuf.n, src, opts);
+    make_face(fb, fbuf.p, fbuf.n, src_arg, opts);
     if (!fb.face) {
         S.add("face_rejected");
         char k[64]; snprintf(k, sizeof k, "reject_err%u_ctx%u", hooks().load_err, hooks().load_ctx & 0xFF);
